@@ -7,6 +7,7 @@ package aa
 import (
 	"embed"
 	"fmt"
+	"slices"
 	"strings"
 	"text/template"
 )
@@ -201,6 +202,7 @@ func join(i any) string {
 		for k, v := range i {
 			res = append(res, k+"="+v)
 		}
+		slices.Sort(res) // Stable output: map iteration order is random
 		return strings.Join(res, " ")
 	default:
 		return i.(string)
